@@ -322,6 +322,11 @@ def exec_case(ctx, case):
             rest = m2.tasks[fresh_t].expr
             if not E.is_ref(fresh) or not E.ast_equal(E.unbuild(fresh), E.unbuild(rest)):
                 continue
+            if str(fresh) != str(rest) and E.norm_zero_text(str(fresh)) == E.norm_zero_text(str(rest)):
+                # a literal captured by an in-place operator: the compiled build may hold -0.0 where the model (CPython
+                # arithmetic) holds 0.0 - the toolchain artefact of section 9, not a difference between restored and fresh
+                classes.add("fresh-vs-restored:zero-sign-literal(skipped)")
+                continue
             classes.add("fresh-vs-restored-node-compared")
             bad = None
             if not (fresh == rest):
